@@ -196,7 +196,7 @@ def invariant_obligations(ctx, facts, rule=None):
                 if variant == "Lower":
                     AZ = sum(1 << c for c in range(65, 91))
                     g = [a for a in o["atoms"] if a[0] == "all" and a[3] is True and a[1] == ("Input", 1)]
-                    okl = any((boolsum.charset(boolsum.subst_formula(summ.summary(a[2]), {2: boolsum.CPARAM}), facts) & AZ) == 0 for a in g)
+                    okl = any((boolsum.charset(boolsum.pred_formula(facts, summ, a[2]), facts) & AZ) == 0 for a in g)
                     ctx.ob(R("KEYCTOR"), "Lower(_) only under a guard whose character class excludes [A-Z]", okl, fn=KC, site=fn_site(facts, KC), detail="; ".join(show_canon(a) for a in g)[:200])
     # ------------------------------------------------------------ KEYCHECK
     callers = {}
